@@ -382,6 +382,7 @@ class Verdict:
         self.coverage = {}
         self.assumptions = []
         self.unreproduced = 0
+        self.replay_info = {}
 
     def violation(self, key, replay):
         self.violations.append((key, replay))
@@ -398,6 +399,9 @@ class Verdict:
         if k is not None:
             self.known_finding(k, key)
             return False
+        if info is not None and self.replay_info:
+            info = dict(info)
+            info.update(self.replay_info)
         if len(self.violations) < 20:
             path = save_replay(self.prop, re.sub(r"[^A-Za-z0-9_.-]+", "_", key)[:60], replay_files, info)
         else:
